@@ -227,6 +227,7 @@ func Run(r *core.Run) {
 	// ECDSA, proofs enabled and disabled
 	add(scen.EcResharing(2, 1, []int{0, 1}, 2, 1, r.Seed, false), "dev", 0, false)
 	add(scen.EcResharing(2, 1, []int{0, 1}, 2, 1, r.Seed, true), "dev", 0, false)
+	add(scen.EcResharing(3, 1, []int{0, 1, 2}, 2, 1, r.Seed, true), "dev", 0, false) // more old members than new ones
 	if r.Tier == "thorough" {
 		add(scen.EcResharing(2, 1, []int{0, 1}, 2, 1, r.Seed, false), "dev", 1, true)
 		add(scen.EcResharing(3, 1, []int{0, 2}, 3, 2, r.Seed, false), "dev", 0, true)
